@@ -281,6 +281,25 @@ def gen_cases(tier, rng):
              "_n": t, "unsafe": True}
         c["dc"], c["mult"] = factor(v, t)
         cases.append(c)
+    # value buffers between ONE and TWO times the driver's own bound on the longest span output (2*bytes + 3*entries), with
+    # spans that expand strongly (mostly quote characters) behind a span that fills just under half the buffer: the regime in
+    # which a batch is still open (fewer than half the bytes used) when a span arrives that does not fit the room left
+    for t in range(nbad * 2):
+        n = rng.randrange(2, 7)
+        strs = [rng.choice(['"', '""', '""""""', '"""', 'abcdef', 'abc', 'x', ',', 'ab', '",']) for _ in range(n)]
+        if rng.random() < 0.6:
+            spans = list(range(n + 1))                         # one span per row
+        else:
+            cuts = sorted(rng.sample(range(1, n), rng.randrange(0, n)))
+            spans = [0] + cuts + [n]
+        bs = enc(strs)
+        lens = [len(b) for b in bs]
+        bound = max(2 * sum(lens[a:b]) + 3 * (b - a) for a, b in zip(spans[:-1], spans[1:]))
+        v = rng.randrange(bound, 2 * bound) if rng.random() < 0.8 else rng.randrange(max(bound - 3, 0), bound + 1)
+        c = {"op": "concat_session", "strs": strs, "spans": spans, "sc": rng.choice([2, 3, 8, 8]), "src": "mem", "dst": "h5",
+             "_n": t, "unsafe": True, "_why": "buffer between bound and twice the bound"}
+        c["dc"], c["mult"] = factor(v, t)
+        cases.append(c)
     return cases
 
 
